@@ -192,8 +192,9 @@ def send_data(sock: socket.socket, data: bytes) -> None:
     else:
         # Socket is in non-blocking mode, use regular send loop.
         delays = __retrydelays()
-        if isinstance(data, memoryview):
-            data = data.cast("B")   # send() counts bytes; slicing a view of wider items by that number would skip data
+        if not isinstance(data, (bytes, bytearray)):
+            # send() counts bytes; slicing a buffer of wider items (a view, an array) by that number would skip data
+            data = memoryview(data).cast("B")
         while data:
             try:
                 sent = sock.send(data)
